@@ -159,7 +159,9 @@ const struct Flavour {
     {K_MMAP_FILE, ANS_FAIL, ENODEV}, {K_MREMAP, ANS_FAIL, ENOMEM},    {K_MUNMAP, ANS_FAIL, EINVAL},    {K_OPEN, ANS_FAIL, ENOENT},
     {K_OPEN, ANS_FAIL, EACCES},      {K_OPEN, ANS_FAIL, EMFILE},      {K_FSTAT, ANS_FAIL, EIO},        {K_READ, ANS_FAIL, EIO},
     {K_FOPEN, ANS_FAIL, EACCES},     {K_FOPEN, ANS_FAIL, ENOSPC},     {K_FOPEN, ANS_FAIL, EMFILE},     {K_FWRITE, ANS_SHORT, ENOSPC},
-    {K_FWRITE, ANS_FAIL, EIO},       {K_FCLOSE, ANS_FAIL, EIO},       {K_FCLOSE, ANS_FAIL, ENOSPC},    {K_CWRITE, ANS_FAIL, ENOSPC},
+    {K_FWRITE, ANS_FAIL, EIO},       {K_FCLOSE, ANS_FAIL, EIO},       {K_FCLOSE, ANS_FAIL, ENOSPC},    {K_FCLOSE, ANS_FAIL, EINTR},     {K_FOPEN, ANS_FAIL, EINTR},
+    {K_OPEN, ANS_FAIL, EINTR},       {K_MREMAP, ANS_FAIL, EAGAIN},    {K_MUNMAP, ANS_FAIL, ENOMEM},    {K_FSTAT, ANS_FAIL, EOVERFLOW},
+    {K_MMAP_FILE, ANS_FAIL, EAGAIN}, {K_FWRITE, ANS_FAIL, EFBIG},    {K_CWRITE, ANS_FAIL, ENOSPC},
     {K_CWRITE, ANS_SHORT, ENOSPC},   {K_CWRITE, ANS_FAIL, EIO},
     // transient short counts (not refusals): success is allowed, but only with the complete file
     {K_FWRITE, ANS_SHORT, EINTR},    {K_CWRITE, ANS_SHORT, EINTR},
@@ -436,6 +438,14 @@ Plan shrink_plan(const Plan &orig, const std::string &sig, bool scope, long budg
         }
       }
       q = p;
+      if (q.world.fd0_free) {
+        q.world.fd0_free = false;
+        if (still_fails(c, q)) {
+          p = q;
+          progress = true;
+        }
+      }
+      q = p;
       if (q.world.behind != 0) {
         q.world.behind = 0;
         if (still_fails(c, q)) {
@@ -508,6 +518,7 @@ Plan shrink_plan(const Plan &orig, const std::string &sig, bool scope, long budg
         };
         try_edit([](Op &o) { if (!o.alias) return false; o.alias = false; return true; });
         try_edit([](Op &o) { if (o.final_nl) return false; o.final_nl = true; return true; });
+        try_edit([](Op &o) { if (!o.sep) return false; o.sep = 0; return true; });
         try_edit([](Op &o) { if (!o.twin) return false; o.twin = false; return true; });
         try_edit([](Op &o) { if (!o.fresh_twin) return false; o.fresh_twin = false; return true; });
         try_edit([](Op &o) { if (o.kind != OP_CREATE || o.fill == 0xCC) return false; o.fill = 0xCC; return true; });
